@@ -186,6 +186,20 @@ func generate(files map[string]string) GenResult {
 	return generateDir(dir)
 }
 
+// generateIn: the configuration lives in a sub-directory of the tree; paths outside it are reported relative to
+// the tree's root
+func generateIn(files map[string]string, sub string) GenResult {
+	root := writeTree(files)
+	defer os.RemoveAll(root)
+	dir := root
+	if sub != "" {
+		dir = filepath.Join(root, sub)
+	}
+	g := generateDir(dir)
+	g.Stderr = strings.ReplaceAll(g.Stderr, root+"/", "")
+	return g
+}
+
 // panicSite: the innermost function of the sqlc module on a panicking goroutine's stack (the frames above
 // runtime.gopanic are the deferred recover machinery)
 func panicSite(stack []byte) string {
